@@ -22,7 +22,7 @@ FnProps == /\ FnTotal /\ PermutationClosure /\ GeneConservation /\ ArithConvex /
 CompProps == /\ CompNoFailure /\ CompPermutationClosure /\ CompDimensionKept /\ CompRateZero
              /\ CompRateZeroReal /\ CompOffspringCount /\ CompDEFormat /\ CompGenesFromParents
              /\ CompDEGenes /\ CompStackKept /\ CompOwnParameters /\ CompInvalidRejected
-             /\ CompStrengthBound /\ CompCtorVariant
+             /\ CompStrengthBound /\ CompCtorVariant /\ CompGenesConserved
 
 (* A record is first loaded into the spec variables and judged in the      *)
 (* following step on the then-current state:  loading record n+1 (or the   *)
